@@ -139,8 +139,14 @@ class IdealReservoir:
         except AttributeError:
             recovery = self.recovery_factor(time)
 
+        # look up in double precision: for other dtypes (float32 / int32 day counts) scipy takes a
+        # slower path that returns NaN where the first two times coincide - as they do once a
+        # float32 grid is shifted by a large time origin
         interpolator = interpolate.interp1d(
-            time, recovery, bounds_error=False, fill_value=(0, recovery[-1])
+            np.asarray(time, dtype=np.float64),
+            recovery,
+            bounds_error=False,
+            fill_value=(0, recovery[-1]),
         )
         return interpolator
 
